@@ -196,13 +196,7 @@ class BADS:
 
         # set up BADS logger
         self.logger = logging.getLogger("BADS")
-        self.logger.setLevel(logging.INFO)
-        if self.options.get("display") == "off":
-            self.logger.setLevel(logging.WARN)
-        elif self.options.get("display") == "iter":
-            self.logger.setLevel(logging.INFO)
-        elif self.options.get("display") == "full":
-            self.logger.setLevel(logging.DEBUG)
+        self._set_logger_level_()
 
         # Empty lb and ub are Infs
         if lower_bounds is None:
@@ -1156,6 +1150,20 @@ class BADS:
             hyp_dict,
         )
 
+    def _set_logger_level_(self):
+        """
+        Apply options['display'] to the (process-wide) BADS logger. Called at
+        construction and again when the run starts, since another instance
+        may have changed the level in between.
+        """
+        self.logger.setLevel(logging.INFO)
+        if self.options.get("display") == "off":
+            self.logger.setLevel(logging.WARN)
+        elif self.options.get("display") == "iter":
+            self.logger.setLevel(logging.INFO)
+        elif self.options.get("display") == "full":
+            self.logger.setLevel(logging.DEBUG)
+
     def optimize(self):
         """
         Run the optimization on an initialized ``PyBADS`` object.
@@ -1173,6 +1181,7 @@ class BADS:
                     -  ``optimize_result.x``
                     -  ``optimize_result.fval`` 
         """
+        self._set_logger_level_()
         is_finished = False
         poll_iteration = -1
         self.logging_action = []
